@@ -12,28 +12,27 @@ import re
 import struct
 
 from lib import hx, unhx, show_list
+import grsenv  # first (also in the PYCOIN_NATIVE=none worker): Groestl stand-in hash before pycoin.symbols.* is imported
 
 import pycoin.symbols
-from pycoin.encoding.b58 import b2a_hashed_base58
 from pycoin.key.BIP49Node import BIP49Node
 from pycoin.key.BIP84Node import BIP84Node
 from pycoin.key.subpaths import subpaths_for_path_range
-from pycoin.networks.ParseAPI import ParseAPI
 
 MANIFEST = {
     "text": "Lean theorems over an executable model of bip32.py / BIP32Node / subpaths / electrum / hparse: CKDpriv and CKDpub equal the "
             "BIP32 specification (written from the BIP text over Mathlib's elliptic-curve group) whenever I_L < n and the child is "
             "non-zero, for every index below 2^32; public and private derivation commute (group algebra over the C02 refinement of "
             "Curve.add / Generator.__mul__); child metadata; hardened-from-public refused; 78-byte serialisation and the Base58Check "
-            "text form round-trip on every network and every bip32/49/84 prefix pair of the generated network table; subkey_for_path "
+            "text form round-trip on every network (Groestlcoin family under its own checksum hash included) and every bip32/49/84 prefix pair of the generated network table (agreement of prefixes AND of the checksum hash between each bipNN_as_string closure and parse_b58_hashed decided over the table); subkey_for_path "
             "is the fold of subkey and H/p/' are interchangeable; range expansion is the ordered cartesian product; the sub-key "
             "cache is transparent for every history of calls; Electrum derivation commutes with going public. Model tied to the "
             "code by differential correspondence at the observe_at points on every run, with an independent BIP32 reference "
             "(hashlib/hmac + own affine secp256k1 arithmetic) and the BIP32 test vectors 1-3 as oracles on the implementation.",
     "note": "HMAC-SHA512, SHA-256 and RIPEMD-160 are function symbols in the theorems. The retry branch of "
             "subkey_secret_exponent_chain_code_pair (I_L >= n or child 0; probability ~2^-127) is modelled with fuel and described "
-            "by its own theorem; no real input reaches it. Groestlcoin-family networks (grs, tgrs, grsrt) need the absent "
-            "groestlcoin_hash module and are skipped. libsecp256k1 is absent; the in-process run uses the OpenSSL backend.",
+            "by its own theorem; no real input reaches it. Groestlcoin-family networks (grs, tgrs, grsrt) run and are modelled with the "
+            "stand-in of translate/grs_stub.py in place of the absent groestlcoin_hash module. libsecp256k1 is absent; the in-process run uses the OpenSSL backend.",
     "technique": "Lean 4 proof (executable model, Mathlib group law through the C02 refinement, decide over generated tables) + "
                  "differential correspondence model vs implementation + independent reference oracle",
 }
@@ -45,6 +44,8 @@ RULE = ("ops bip32_fam (histories over a family of objects: public copies, share
 ASSUMPTIONS = [
     "hmac/hashlib (HMAC-SHA512, SHA-256, RIPEMD-160) are modelled by Pycoin.Hash.* (validated against hashlib by the C19 check and here "
     "through every derivation); they are function symbols in the theorems",
+    "the optional groestlcoin_hash package is replaced (also where a real one is installed) by the stand-in of translate/grs_stub.py in harness, "
+    "worker, translator and model; of the real Groestl hash only 'a function from byte strings to 32 bytes' is assumed",
     "path strings are ASCII (int() also accepts non-ASCII digits and spaces; not generated, not modelled)",
     "the retry loop of subkey_secret_exponent_chain_code_pair is run with fuel 64 by the model driver",
     "theorems quantify over keys k*G, whose order divides n (C02_order_G_secp256k1); #E(secp256k1) = n itself is proved in C02 (C02_card_points_secp256k1)",
@@ -70,9 +71,8 @@ def all_modules():
 
 
 def supported(name: str) -> bool:
-    """Base58Check with double SHA-256 on both sides (false for the Groestlcoin family, whose hash module is absent)"""
-    n = net(name)
-    return n.address.b2a is b2a_hashed_base58 and type(n.parse).parse_b58_hashed is ParseAPI.parse_b58_hashed
+    """every module under pycoin/symbols (the Groestlcoin family runs under the stand-in hash)"""
+    return True
 
 
 def kinds_of(name: str):
@@ -504,8 +504,9 @@ def ref_serialize(n, private):
 B58 = "123456789ABCDEFGHJKLMNPQRSTUVWXYZabcdefghijkmnopqrstuvwxyz"
 
 
-def ref_b58check(b):
-    b = b + hashlib.sha256(hashlib.sha256(b).digest()).digest()[:4]
+def ref_b58check(b, name):
+    """Base58Check under the checksum hash the network module `name` is documented to use"""
+    b = b + grsenv.HASHES[grsenv.hash_kind(name)](b)[:4]
     v = int.from_bytes(b, "big")
     s = ""
     while v:
@@ -514,7 +515,7 @@ def ref_b58check(b):
     return "1" * (len(b) - len(b.lstrip(b"\0"))) + s
 
 
-def _b58check_payload(text):
+def _b58check_payload(text, name):
     v = 0
     for ch in text:
         i = B58.find(ch)
@@ -522,7 +523,7 @@ def _b58check_payload(text):
             return None
         v = v * 58 + i
     raw = b"\0" * (len(text) - len(text.lstrip("1"))) + v.to_bytes((v.bit_length() + 7) // 8, "big")
-    if len(raw) < 4 or hashlib.sha256(hashlib.sha256(raw[:-4]).digest()).digest()[:4] != raw[-4:]:
+    if len(raw) < 4 or grsenv.HASHES[grsenv.hash_kind(name)](raw[:-4])[:4] != raw[-4:]:
         return None
     return raw[:-4]
 
@@ -729,9 +730,9 @@ def oracle(op: str, out: str):
             pub_pfx = getattr(pp, "_bip%d_pub_prefix" % kind)
             prv_pfx = getattr(pp, "_bip%d_prv_prefix" % kind)
             if want["depth"] <= 255:
-                if tpub != s2h(ref_b58check(pub_pfx + ref_serialize(want, False))):
+                if tpub != s2h(ref_b58check(pub_pfx + ref_serialize(want, False), name)):
                     return "public text form differs from BIP32 serialisation"
-                if want["k"] is not None and tprv != s2h(ref_b58check(prv_pfx + ref_serialize(want, True))):
+                if want["k"] is not None and tprv != s2h(ref_b58check(prv_pfx + ref_serialize(want, True), name)):
                     return "private text form differs from BIP32 serialisation"
                 if want["k"] is None and tprv != "!PublicPrivateMismatchError":
                     return "private text form of a public node not refused"
@@ -831,6 +832,9 @@ def oracle(op: str, out: str):
         back = impl("hparse %s %d %s" % (name, kind, out[3:]))
         if not back.startswith("ok "):
             return "text form does not parse back on its own network (%s)" % back
+        one = getattr(net(name).parse, "bip%d_%s" % (kind, "prv" if a[3] == "1" else "pub"))(text)
+        if one is None or show_node(one) != back[3:].split(" ")[0]:
+            return "hwif(as_private=%s) is not accepted by parse.bip%d_%s as the same node" % (a[3] == "1", kind, "prv" if a[3] == "1" else "pub")
         back_node, back_text = back[3:].split(" ")
         if _check_node(back_node, want, "x") or int(back_node.split(":")[0]) != kind:
             return "text round trip does not preserve every field"
@@ -856,9 +860,9 @@ def oracle(op: str, out: str):
         h = hash160(ser_p(n["K"]))
         aa = net(name).address
         if kind == 32:
-            want = ref_b58check(aa._address_prefix + h) if aa._address_prefix is not None else None
+            want = ref_b58check(aa._address_prefix + h, name) if aa._address_prefix is not None else None
         elif kind == 49:
-            want = ref_b58check(aa._pay_to_script_prefix + hash160(b"\x00\x14" + h)) if aa._pay_to_script_prefix is not None else None
+            want = ref_b58check(aa._pay_to_script_prefix + hash160(b"\x00\x14" + h), name) if aa._pay_to_script_prefix is not None else None
         else:
             want = ref_segwit_v0(aa._bech32_hrp, h) if aa._bech32_hrp is not None else None
         if want is not None and out != "ok " + s2h(want):
@@ -876,7 +880,9 @@ def oracle(op: str, out: str):
             name, kind = a[1], int(a[2])
             tok = out[3:].split(" ")[0].split(":")
             priv = tok[5] != "-"
-            data = _b58check_payload(h2s(a[3]))
+            data = _b58check_payload(h2s(a[3]), name)
+            if data is None:
+                return "a text that is not Base58Check under the network's checksum hash is accepted as an extended key"
             marker_private = data is not None and data[:4] == getattr(net(name).parse, "_bip%d_prv_prefix" % kind)
             if marker_private != priv:
                 # private version bytes over a public key field (or the reverse) are accepted and re-serialise differently:
@@ -1010,7 +1016,7 @@ def _ref_text(name, kind, n, private):
     pfx = getattr(net(name).parse, "_bip%d_%s_prefix" % (kind, "prv" if private else "pub"))
     if pfx is None or n["depth"] > 255:
         return None
-    return ref_b58check(pfx + ref_serialize(n, private))
+    return ref_b58check(pfx + ref_serialize(n, private), name)
 
 
 def _fam_oracle(a, out):
@@ -1134,7 +1140,7 @@ def _texts_oracle(a, out):
                 return "%s of a bip%d node also parses as bip%d" % (label, kind, kk)
     if n["k"] is not None and not wif.startswith("!"):
         wp = net(name).parse._wif_prefix
-        if wp is not None and wif != s2h(ref_b58check(wp + n["k"].to_bytes(32, "big") + b"\x01")):
+        if wp is not None and wif != s2h(ref_b58check(wp + n["k"].to_bytes(32, "big") + b"\x01", name)):
             return "wif() is not the compressed WIF of the node's secret exponent"
     if n["k"] is None and wif != "none":
         return "wif() of a public node is not None"
@@ -1280,8 +1286,7 @@ def gen(ctx, emit):
     emit("bip32_ser %s 1" % base_pub)
 
     # --- every network x every prefix kind it defines: text round trip, private and public
-    mods = [m for m in all_modules() if supported(m)]
-    ctx.note("networks skipped (Groestlcoin-family hash module absent): " + ",".join(m for m in all_modules() if not supported(m)))
+    mods = all_modules()
     texts = []
     t_pub = {kind: pub_tok_of(rand_priv_tok(kind=kind)) for kind in (32, 49, 84)}
     for m in mods:
@@ -1316,17 +1321,39 @@ def gen(ctx, emit):
         emit("hparse %s %d %s" % (m2, k2, tx))
     xprv = [t for t in texts if t[0] == "btc" and t[1] == 32][0][2]
     raw = h2s(xprv)
-    from pycoin.encoding.b58 import a2b_hashed_base58
+    def a2b_hashed_base58(text, m="btc"):
+        return _b58check_payload(text, m)
+
     blob = a2b_hashed_base58(raw)
 
-    def b58c(b):
-        return s2h(b2a_hashed_base58(b))
+    def b58c(b, m="btc"):
+        return s2h(ref_b58check(b, m))
+    # the Groestlcoin family against the networks with the same version bytes (GRS = BTC's, TGRS/GRSRT = XTN's): each side's own
+    # text on the other side, and each side's payload under the other side's checksum hash — refused all four ways
+    fam = [m for m in mods if grsenv.hash_kind(m) == "groestl"]
+    for m, kind, tx in [t for t in texts if t[0] in fam or t[0] in ("btc", "xtn")]:
+        payload = a2b_hashed_base58(h2s(tx), m)
+        if payload is None:
+            continue        # not under the network's documented checksum hash: the `hwif` oracle reports it
+        for o in (fam if m not in fam else ["btc", "xtn"] + [f for f in fam if f != m]):
+            emit("hparse %s %d %s" % (o, kind, tx))
+            emit("hparse %s %d %s" % (m, kind, b58c(payload, o)))
     bad = [blob[:-1], blob + b"\0", blob[:45], blob[:46], blob[:13], blob[:12], blob[:5], blob[:4], b"",
            blob[:45] + b"\0" + b"\0" * 32, blob[:45] + b"\0" + N.to_bytes(32, "big"), blob[:45] + b"\0" + (N - 1).to_bytes(32, "big"),
            blob[:45] + b"\1" + b"\0" * 32, blob[:45] + b"\4" + b"\0" * 32, blob[:45] + b"\2" + (5).to_bytes(32, "big"),
            blob[:45] + b"\2" + (1).to_bytes(32, "big"), blob[:45] + b"\3" + (1).to_bytes(32, "big"),
            blob[:45] + b"\2" + (P + 1).to_bytes(32, "big"), blob[:45] + b"\4" + G[0].to_bytes(32, "big") + G[1].to_bytes(32, "big"),
            blob[:45] + b"\0" + b"\0" * 31 + b"\1" + b"\7", blob[:46] + blob[47:], b"\x04\x88\xb2\x1e" + blob[4:]]
+    # a right extended key with ONE checksum byte off (each of the four positions), on btc and on the Groestlcoin family
+    for m, kind, tx in [t for t in texts if t[0] == "btc" or t[0] in fam][: ctx.n(12, 60)]:
+        payload = a2b_hashed_base58(h2s(tx), m)
+        if payload is None:
+            continue
+        chk = grsenv.HASHES[grsenv.hash_kind(m)](payload)[:4]
+        for i in range(4):
+            badc = bytearray(chk)
+            badc[i] ^= 1 << rng.randrange(8)
+            emit("hparse %s %d %s" % (m, kind, s2h(grsenv.b58enc(payload + bytes(badc)))))
     for b in bad:
         for kind in (32, 49, 84):
             emit("hparse btc %d %s" % (kind, b58c(b)))
@@ -1335,7 +1362,7 @@ def gen(ctx, emit):
         emit("hparse btc 32 %s" % s2h(t))
     for _ in range(ctx.n(150, 3000)):
         m, kind, tx = rng.choice(texts)
-        b = bytearray(a2b_hashed_base58(h2s(tx)))
+        b = bytearray(a2b_hashed_base58(h2s(tx), m) or b"\0" * 78)
         mode = rng.randrange(6)
         if mode == 0:
             b[rng.randrange(len(b))] ^= 1 << rng.randrange(8)
@@ -1349,7 +1376,7 @@ def gen(ctx, emit):
             b[46:78] = rng.choice([0, N, N - 1, P, 2 ** 256 - 1, rng.randrange(2 ** 256)]).to_bytes(32, "big")
         else:
             b[0:4] = rng.choice([b"\x04\x88\xad\xe4", b"\x04\x88\xb2\x1e", b"\x04\x9d\x78\x78", b"\x04\xb2\x47\x46", rb(4)])
-        emit("hparse %s %d %s" % (m, rng.choice([kind, 32]), b58c(bytes(b))))
+        emit("hparse %s %d %s" % (m, rng.choice([kind, 32]), b58c(bytes(b), m)))
     for _ in range(ctx.n(10, 200)):
         emit("bip32_deser %d %s" % (rng.choice([32, 49, 84]), hx(rb(rng.choice([0, 4, 12, 13, 45, 46, 47, 77, 78, 79, 110])))))
 
